@@ -121,6 +121,8 @@ DOC_IDENT_ALIASES = {"2": "$2$", "2a": "$2a$", "2y": "$2y$", "2b": "$2b$", "P": 
 
 
 def norm_ident(h, ident):
+    if isinstance(ident, bytes):
+        ident = ident.decode("ascii")  # settings are text or ASCII bytes alike
     vals = list(getattr(h, "ident_values", ()) or ())
     aliases = {k: v for k, v in DOC_IDENT_ALIASES.items() if k in (getattr(h, "ident_aliases", None) or {}) and v in vals}
     if ident in vals:
@@ -168,6 +170,8 @@ def probe(rec, name, node_obj, node_rec, cheap, where, hist, soft):
     ctx = {"user": "u"} if "user" in f.ctx else {}
     st, hs = call(node_obj.hash, "pw", **ctx)
     if st == "err":
+        if name == "scrypt" and node_rec["ident"] == "$7$" and (node_rec["salt_size"] or 0) > 768 and isinstance(hs, ValueError):
+            return True  # a combination the format forbids ($7$ feeds the encoded salt, 4/3 as long, to a KDF limited to 1024 bytes): ValueError no later than hash()
         fail(f"{where}-hash-raises", f"{where}: hash() raises", repr(hs), None)
         return False
     if f.disabled:
@@ -360,7 +364,7 @@ def kw_strategy(name, first):
     if getattr(h, "ident_values", None):
         good = list(h.ident_values) + list((getattr(h, "ident_aliases", None) or {}).keys())
         good = [g for g in good if "2x" not in g]
-        parts["ident"] = st.one_of(st.sampled_from(good), st.sampled_from(["$zz$", "nope"]))
+        parts["ident"] = st.one_of(st.sampled_from(good), st.sampled_from(good).map(lambda g: g.encode("ascii")), st.sampled_from(["$zz$", "nope"]))
     if "truncate_error" in getattr(h, "setting_kwds", ()):
         parts["truncate_error"] = st.sampled_from([True, False, "true", "false", "yes", "0"])
     if name == "scrypt":
@@ -374,9 +378,28 @@ def kw_strategy(name, first):
     costly = [k for k in keys if "rounds" in k]
     structural = [k for k in keys if "rounds" not in k]
 
+    # one out-of-range value with relaxed=True: documented to be clamped to the nearest limit (with a warning) instead of refused
+    beyond = {}
+    if "rounds" in h.setting_kwds and not first:
+        for k in ("min_rounds", "max_rounds", "default_rounds"):
+            beyond[k] = st.sampled_from([h.min_rounds - 1] + ([h.max_rounds + 1] if h.max_rounds else []))
+    if "salt_size" in h.setting_kwds:
+        # (scrypt: a 1024-byte salt does not fit the $7$ encoding -- the upper end is left to the ordinary strategy's smaller sizes)
+        beyond["salt_size"] = st.sampled_from([h.min_salt_size - 1] + ([h.max_salt_size + 1] if h.max_salt_size and name != "scrypt" else []))
+    if name == "scrypt":
+        beyond["block_size"] = st.just(0)
+        beyond["parallelism"] = st.just(0)
+    beyond = {k: v for k, v in beyond.items() if k in parts}
+
     @st.composite
     def s(draw):
         kw = {}
+        if beyond and draw(st.integers(0, 7)) == 0:
+            k = draw(st.sampled_from(sorted(beyond)))
+            kw = {k: draw(beyond[k]), "relaxed": True}
+            if first and cheap and "rounds" in h.setting_kwds:
+                kw["rounds"] = draw(st.integers(*cheap))
+            return kw
         if first and cheap and "rounds" in h.setting_kwds:
             kw["rounds"] = draw(st.integers(*cheap))  # make the first child cheap to probe
             ks = draw(st.lists(st.sampled_from(structural), max_size=2, unique=True)) if structural else []
